@@ -43,13 +43,13 @@ def rank(an, sev):
     return sevnum(an, sev)
 
 
-def faces(ctx, datas, opt, an, fk, fickling, cli_main, idx):
+def faces(ctx, datas, opt, an, fk, fickling, cli_main, idx, chan="path"):
     from fickling.exception import UnsafeFileError
     path = os.path.join(ctx.tmp, f"f{idx}.pkl")
     with open(path, "wb") as f:
         for d in datas:
             f.write(d)
-    rec = {"kind": "faces", "opt": opt}
+    rec = {"kind": "faces", "opt": opt, "chan": chan}
     with open(path, "rb") as f:
         sp = fk.StackedPickle.load(f)
     lib, maxfind, nfind = [], [], []
@@ -79,9 +79,39 @@ def faces(ctx, datas, opt, an, fk, fickling, cli_main, idx):
         jp = os.path.join(ctx.tmp, f"r{idx}.json") if "json" in opt else os.path.join(ctx.tmp, "safety_results.json")
         if os.path.exists(jp):
             os.remove(jp)
-        argv = ["fickling", "--check-safety", path] + (["--json-output", jp] if "json" in opt else []) + (["--print-results"] if "print" in opt else [])
-        with contextlib.redirect_stdout(io.StringIO()), contextlib.redirect_stderr(io.StringIO()):
-            rec["cli_rc"] = int(cli_main(argv))
+        argv = ["fickling", "--check-safety"] + ([path] if chan == "path" else ["-"] if idx % 2 else []) \
+            + (["--json-output", jp] if "json" in opt else []) + (["--print-results"] if "print" in opt else [])
+        old_stdin, feeder, rfd = sys.stdin, None, None
+        if chan == "stdin":         # `fickling --check-safety < file`: a seekable buffered reader
+            sys.stdin = io.TextIOWrapper(open(path, "rb"))
+        elif chan == "pipe":        # `cat file | fickling --check-safety`: a real pipe (cannot seek)
+            import threading
+            rfd, wfd = os.pipe()
+
+            def feed():
+                with os.fdopen(wfd, "wb") as w:
+                    try:
+                        w.write(b"".join(datas))
+                    except BrokenPipeError:
+                        pass
+            feeder = threading.Thread(target=feed)
+            feeder.start()
+            sys.stdin = io.TextIOWrapper(os.fdopen(rfd, "rb"))
+        try:
+            with contextlib.redirect_stdout(io.StringIO()), contextlib.redirect_stderr(io.StringIO()):
+                try:
+                    rec["cli_rc"] = int(cli_main(argv))
+                except SystemExit as e:
+                    rec["cli_rc"] = e.code if isinstance(e.code, int) else 2
+        finally:
+            if sys.stdin is not old_stdin:
+                try:
+                    sys.stdin.close()
+                except Exception:  # noqa: BLE001
+                    pass
+            sys.stdin = old_stdin
+            if feeder:
+                feeder.join(10)
         docs, txt, pos = [], open(jp).read() if os.path.exists(jp) else "", 0
         dec = json.JSONDecoder()
         while pos < len(txt):
@@ -127,7 +157,7 @@ def run(ctx):
             reps = 1 if ctx.quick else 2
             for _ in range(reps):
                 datas = [ctx.rng.choice(pool[s]) for s in c["vec"]]
-                r = faces(ctx, datas, c["opt"], an, fk, fickling, cli_main, len(recs))
+                r = faces(ctx, datas, c["opt"], an, fk, fickling, cli_main, len(recs), c.get("chan", "path"))
                 r.update(id=len(recs), vec=c["vec"], hexes=[d.hex()[:80] for d in datas])
                 recs.append(r)
     verdicts = tv.validate(ctx, "FacesTrace", recs, batch=20000)
@@ -142,7 +172,7 @@ def run(ctx):
     samples = [{k: r[k] for k in r if k != "hexes"} for r in recs[:: max(1, len(recs) // 4)][:4]]
     return finish(ctx, level="model_checking", failures=failures, evaluations=len(recs), distinct_nontrivial=len(nontriv),
                   rule=f"TLC enumerates all 36x6 comparison cells and all severity vectors of 1..{n} stacked pickles over the reachable "
-                       "severities x 4 CLI option sets (spec/Faces.tla); every vector is instantiated with pool pickles the library rates "
+                       "severities x 4 CLI option sets x 3 channels (path, redirected stdin, pipe) (spec/Faces.tla); every vector is instantiated with pool pickles the library rates "
                        "at those severities and all faces are recorded on the real file; non-trivial = a comparison cell, or a stack of "
                        ">= 2 pickles, or a flagged first pickle",
                   samples=samples, traces=len(recs), assumptions=ASSUME,
